@@ -532,14 +532,30 @@ impl<'a> GeneratorState<'a> {
                             if let Expr::Integer(8) = *rhs2 {
                                 if let Expr::Identifier(var, sub) = *lhs2 {
                                     if let Expr::Nothing = *sub {
-                                        let v = self.compiler_state.get_variable(var.as_str());
-                                        if v.var_type == VariableType::CharPtr && v.var_const {
+                                        // X, Y and functions without a body are not in the variables table
+                                        let const_pointer = self
+                                            .compiler_state
+                                            .variables
+                                            .get(var.as_str())
+                                            .map_or(false, |v| {
+                                                v.var_type == VariableType::CharPtr && v.var_const
+                                            });
+                                        if const_pointer {
                                             if self.acc_in_use {
                                                 self.sasm(PHA)?;
                                             }
+                                            let offset = match (l as i64).checked_mul(256) {
+                                                Some(o) if i32::try_from(o).is_ok() => o as i32,
+                                                _ => {
+                                                    return Err(self.compiler_state.syntax_error(
+                                                        "Constant expression overflow",
+                                                        pos,
+                                                    ))
+                                                }
+                                            };
                                             let signed = self.asm(
                                                 LDA,
-                                                &ExprType::Absolute(var, false, l * 256),
+                                                &ExprType::Absolute(var, false, offset),
                                                 pos,
                                                 true,
                                             )?;
@@ -581,14 +597,30 @@ impl<'a> GeneratorState<'a> {
                             if let Expr::Integer(8) = *rhs2 {
                                 if let Expr::Identifier(var, sub) = *lhs2 {
                                     if let Expr::Nothing = *sub {
-                                        let v = self.compiler_state.get_variable(var.as_str());
-                                        if v.var_type == VariableType::CharPtr && v.var_const {
+                                        // X, Y and functions without a body are not in the variables table
+                                        let const_pointer = self
+                                            .compiler_state
+                                            .variables
+                                            .get(var.as_str())
+                                            .map_or(false, |v| {
+                                                v.var_type == VariableType::CharPtr && v.var_const
+                                            });
+                                        if const_pointer {
                                             if self.acc_in_use {
                                                 self.sasm(PHA)?;
                                             }
+                                            let offset = match (-l as i64).checked_mul(256) {
+                                                Some(o) if i32::try_from(o).is_ok() => o as i32,
+                                                _ => {
+                                                    return Err(self.compiler_state.syntax_error(
+                                                        "Constant expression overflow",
+                                                        pos,
+                                                    ))
+                                                }
+                                            };
                                             let signed = self.asm(
                                                 LDA,
-                                                &ExprType::Absolute(var, false, -l * 256),
+                                                &ExprType::Absolute(var, false, offset),
                                                 pos,
                                                 true,
                                             )?;
